@@ -35,7 +35,9 @@ MISMATCH_PAIRS = [("int", "int"), ("float", "int"), ("str", "str"), ("date", "td
 # ------------------------------------------------------------------------------------------------
 BCAST_TYPES = ["str", "int", "float", "date", "bool", "complex"]
 BCAST_POOLS = {
-    "str": ["ab c", "", "Hello, World", "a,b,,c", "  x\t", "123", "é%s{0}"],
+    # incl. strings on which closely related predicates differ ('²' isdigit but not isdecimal, '½' isnumeric only,
+    # 'ǅ' istitle, 'ß'.upper() == 'SS', Arabic-Indic digits are decimal)
+    "str": ["ab c", "", "Hello, World", "a,b,,c", "  x\t", "123", "é%s{0}", "²³", "½", "٣٤", "ǅ", "ß", "①"],
     "int": [3, 0, -2, 255, 10 ** 20],
     # 0.0 / -0.0 (and the complex signed zeros) are equal and hash-equal but not interchangeable: a broadcast that
     # memoises per *value* instead of computing per *element* is visible only with both in one vector
